@@ -4,7 +4,7 @@
    MapSpec.spec_step. [reply_equiv] = same frames on the wire; for a get the value/miss frames
    may come in any order, followed by the same terminator. *)
 From Rend Require Import base.Bytes gen.Consts_gen spec.MapSpec orca.Types handlers.Std orca.Orcas
-  proto.Resp orca.OrcaSpec orca.OrcaProofs.
+  proto.Resp orca.OrcaSpec orca.OrcaProofs proto.ReqCommon proto.BinReq proto.TextReq proto.Stream proto.StreamProofs.
 Open Scope N_scope.
 
 (* the reference run is the reference map: same store, same outcome class and values *)
@@ -55,3 +55,21 @@ Example c01_nonvacuous :
             mkH PMain 102 [] (RSet MAdd [1] [4] 0 10 8 false)] in
   hist_ok Bin true true h /\ (forall now, inv (kind_of true PMain) now empty_store empty_store).
 Proof. exact c01_example. Qed.
+
+(* The same at the byte level: what a client connection receives for the bytes of ANY pipeline
+   of well-formed requests (parser, server loop, orchestrator, responder composed: proto/Stream.v)
+   is exactly the concatenation of the replies to those requests served one after the other
+   (until a quit), so with c01_request/c01_refines_spec the bytes are those of one map. *)
+Theorem c01_bytes_bin : forall orca rs l1 l2 now,
+  forallb wf_bin rs = true ->
+  let s := concat (map enc_bin rs) in
+  serve_stream Bin parse_bin orca (S (length s)) s l1 l2 now = serve_reqs Bin orca rs l1 l2 now.
+Proof. exact stream_bin_pipeline. Qed.
+Print Assumptions c01_bytes_bin.
+
+Theorem c01_bytes_text : forall orca rs l1 l2 now,
+  forallb wf_text rs = true ->
+  let s := concat (map enc_text rs) in
+  serve_stream Text parse_text orca (S (length s)) s l1 l2 now = serve_reqs Text orca rs l1 l2 now.
+Proof. exact stream_text_pipeline. Qed.
+Print Assumptions c01_bytes_text.
